@@ -375,6 +375,8 @@ def _run_tiling(tm, argv, sim):
     t = sim['tiling']
     kw.update(one_contig_per_process=False, bp_per_segment=t['bp_per_segment'], bp_per_job=t['bp_per_job'],
               fragment_size=t['fragment_size'], n_threads=sim.get('width') or 2)
+    if t.get('job_bed'):        # -jobbed: the job list is also written out for inspection
+        kw['job_bed_file'] = 'jobs.bed.gz' if t['job_bed'] == 'gz' else 'jobs.bed'
     real(**kw)
 
 
